@@ -537,30 +537,62 @@ def check_set_root(ctx, cases):
 # --------------------------------------------------------------------------------------------------
 # parser options: exactly the comments / PIs are dropped (oracle: strip_doc evaluated in Coq)
 
+# one ParserOptions object used for several loads, its public attributes changed in between: every combination,
+# reached from both directions
+SHARED_SEQUENCE = [(False, False), (True, False), (False, True), (True, True), (False, True), (True, False), (False, False),
+                   (True, True), (False, False)]
+
+
+def strip_loads(src):
+    """[(how, rc, rp, observed document)]: fresh options objects, one shared object mutated between loads, and the
+    options object taken from an existing document's config"""
+    out = []
+    for rc, rp in ((True, False), (False, True), (True, True)):
+        out.append(("fresh", rc, rp, doc_obs(Document(src, ParserOptions(remove_comments=rc, remove_processing_instructions=rp)))))
+    shared = ParserOptions()
+    for rc, rp in SHARED_SEQUENCE:
+        shared.remove_comments = rc
+        shared.remove_processing_instructions = rp
+        out.append(("shared", rc, rp, doc_obs(Document(src, shared))))
+    first = Document(src, ParserOptions(remove_comments=True))
+    taken = first.config.parser_options
+    taken.remove_comments = False
+    taken.remove_processing_instructions = True
+    out.append(("from-config", False, True, doc_obs(Document(src, taken))))
+    return out
+
+
 def check_strip(ctx, cases):
-    terms, runs = [], []
+    terms, index, runs = [], {}, []
     for case in cases:
-        src = "".join(misc_src(m) for m in case["pro"]) + case["root"] + "".join(misc_src(m) for m in case["epi"])
+        src = case.get("src") or ("".join(misc_src(m) for m in case["pro"]) + case["root"]
+                                  + "".join(misc_src(m) for m in case["epi"]))
         try:
             with no_gc():
                 full = doc_obs(Document(src))
-                for rc, rp in ((True, False), (False, True), (True, True)):
-                    got = doc_obs(Document(src, ParserOptions(remove_comments=rc, remove_processing_instructions=rp)))
-                    terms.append("obs_strip %s %s %s" % (cbool(rc), cbool(rp), cdoc(*full)))
-                    runs.append((case, src, rc, rp, full, got))
+                loads = strip_loads(src)
         except Exception as e:  # noqa: BLE001
             ctx.fail("parsing with parser options raised %s: %s" % (type(e).__name__, e), dict(case, src=src))
+            continue
+        for step, (how, rc, rp, got) in enumerate(loads):
+            key = (src, rc, rp)
+            if key not in index:
+                index[key] = len(terms)
+                terms.append("obs_strip %s %s %s" % (cbool(rc), cbool(rp), cdoc(*full)))
+            runs.append((src, how, step, rc, rp, full, got, index[key]))
     vals = ctx.coq_eval("c12_st_%d" % os.getpid(), REQ, terms, chunk=150)
-    for (case, src, rc, rp, full, got), v in zip(runs, vals):
-        ctx.count(1, "strip/%s%s" % ("c" if rc else "", "p" if rp else ""))
+    for src, how, step, rc, rp, full, got, ti in runs:
+        v = vals[ti]
+        ctx.count(1, "strip/%s/%s%s" % (how, "c" if rc else "", "p" if rp else ""))
         if v is None:
             ctx.mismatch("strip_doc evaluation", "coqc failed on the case file")
             continue
         if got != full:
-            ctx.nontrivial_case(("strip", src, rc, rp))
+            ctx.nontrivial_case(("strip", src, how, step, rc, rp))
         if v != enc_doc(*got):
             ctx.fail("parser options did not drop exactly the comments / processing instructions",
-                     {"src": src, "remove_comments": rc, "remove_processing_instructions": rp, "impl": got})
+                     {"src": src, "options_object": how, "load_number": step, "remove_comments": rc,
+                      "remove_processing_instructions": rp, "impl": got})
 
 
 # --------------------------------------------------------------------------------------------------
@@ -646,7 +678,7 @@ def run(ctx, args):
             elif case and "new_root" in case:
                 check_set_root(ctx, [normalise_case(case)])
             elif case and "src" in case:
-                check_strip(ctx, [{"pro": [], "root": case["src"], "epi": []}])
+                check_strip(ctx, [{"src": case["src"]}])
             return ctx.finish("replay of " + args.replay)
         quick = ctx.tier == "quick"
         n_docs = 120 if quick else 1200
@@ -678,8 +710,9 @@ def run(ctx, args):
              "x newline {None, LF, CRLF; thorough: also '', CR} x format {none, 6 FormatOptions incl. width > 0}; via save, write "
              "and str(); every written document re-read with Document(bytes) and lxml. Reader model: random streams of "
              "declaration variants, comments/PIs, whitespace around <r/> plus %d ill-formed streams. Root replacement: new node, "
-             "clone, detached child, another document's root, a text node. Parser options: the three option sets on every "
-             "document. Non-trivial = at least one root sibling and a non-default encoding/newline/format (serialize), siblings "
+             "clone, detached child, another document's root, a text node. Parser options: on every document the three option sets with fresh "
+             "ParserOptions objects, one ParserOptions object reused for nine loads with its attributes changed in between (all four "
+             "combinations, both directions), and the options object taken from an existing document's config. Non-trivial = at least one root sibling and a non-default encoding/newline/format (serialize), siblings "
              "present (reader, set_root), something dropped (strip)." % (len(ROOTS), len(ILL_FORMED)),
         explanation="The bytes compared are produced by the implementation (Document.save/write, str) and, independently, by "
                     "evaluating the Gallina doc_serialize/nl_out in Coq on the document's prologue/epilogue and the real root "
